@@ -1511,9 +1511,12 @@ pub fn random(ctx: &mut Ctx) {
     // every (size, hash, status) combination `reps` times with different random streams
     let reps = if tiny { 1 } else { ctx.by_tier(6, 8) };
     if ctx.mine(0) {
-        let max = if tiny { 40 } else { ctx.by_tier(2000, 9000) };
+        // (under Miri one sweep step costs seconds: a handful of capacities, one status type)
+        let max = if tiny { 9 } else { ctx.by_tier(2000, 9000) };
         capacity_sweep::<u32>(ctx, max);
-        capacity_sweep::<usize>(ctx, max);
+        if !tiny {
+            capacity_sweep::<usize>(ctx, max);
+        }
     }
     let mut i = 0usize;
     for rep in 0..reps {
@@ -1622,4 +1625,174 @@ pub fn single(ctx: &mut Ctx) {
         }
         Err((i, f)) => ctx.violation(&f.sig, format!("[{p}] at op {i} ({}) => {}", ops.get(i).map_or("consume".into(), |o| o.short()), f.detail)),
     }
+}
+
+// === c17_plain: element types WITHOUT drop glue ================================================
+//
+// The other C17 monitors use an element type that counts live instances (to see leaks and double
+// drops), so every element has drop glue. `RawTable` (like `Vec`) may special-case types for which
+// `needs_drop::<T>()` is false; those paths are exercised here with plain `u64` elements against
+// a `BTreeSet`, with the audit hook after every step.
+
+fn plain_run<S>(ctx: &mut Ctx, rng: &mut Rng, hash: fn(u64) -> u64, hname: &str, steps: usize)
+where
+    S: linear_hashtbl::raw::Status,
+{
+    use std::collections::BTreeSet;
+    let mut t: RawTable<u64, S> = RawTable::new();
+    let mut m: BTreeSet<u64> = BTreeSet::new();
+    let universe = 48u64;
+    let mut log: Vec<String> = Vec::new();
+    let sname = std::any::type_name::<S>();
+    let check = |ctx: &mut Ctx, t: &RawTable<u64, S>, m: &BTreeSet<u64>, log: &Vec<String>, what: &str| -> bool {
+        let mut ok = true;
+        let tail = || log[log.len().saturating_sub(14)..].join(" ");
+        if let Err(e) = t.verif_audit() {
+            ctx.violation(&format!("plain:{what}:audit"), format!("{sname} hash {hname}: {e}; ops: {}", tail()));
+            ok = false;
+        }
+        ctx.eval();
+        if t.len() != m.len() {
+            ctx.violation(&format!("plain:{what}:len"), format!("{sname} hash {hname}: len {} model {}; ops: {}", t.len(), m.len(), tail()));
+            ok = false;
+        }
+        let mut seen: Vec<u64> = t.iter().copied().collect();
+        seen.sort();
+        if seen != m.iter().copied().collect::<Vec<_>>() {
+            ctx.violation(&format!("plain:{what}:iter"), format!("{sname} hash {hname}: iter yields {seen:?}, model {m:?}; ops: {}", tail()));
+            ok = false;
+        }
+        for k in 0..universe {
+            let f = t.find(hash(k), |&e| e == k).is_some();
+            if f != m.contains(&k) {
+                ctx.violation(&format!("plain:{what}:find"), format!("{sname} hash {hname}: find({k}) = {f}, model {}; ops: {}", m.contains(&k), tail()));
+                ok = false;
+                break;
+            }
+        }
+        ok
+    };
+    for _ in 0..steps {
+        let k = rng.below(universe);
+        let what = match rng.below(100) {
+            0..=54 => {
+                log.push(format!("i{k}"));
+                match t.find_or_find_insert_slot(hash(k), |&e| e == k) {
+                    Ok(_) => {
+                        if !m.contains(&k) {
+                            ctx.violation("plain:insert:phantom-element", format!("{sname} hash {hname}: key {k} reported present; ops: {}", log[log.len().saturating_sub(14)..].join(" ")));
+                            return;
+                        }
+                    }
+                    Err(slot) => {
+                        if m.contains(&k) {
+                            ctx.violation("plain:insert:missing-element", format!("{sname} hash {hname}: key {k} reported absent; ops: {}", log[log.len().saturating_sub(14)..].join(" ")));
+                            return;
+                        }
+                        // SAFETY: `slot` was just returned by find_or_find_insert_slot for this hash
+                        unsafe { t.insert_in_slot_unchecked(hash(k), slot, k) };
+                        m.insert(k);
+                    }
+                }
+                "insert"
+            }
+            55..=74 => {
+                log.push(format!("r{k}"));
+                let r = t.remove_entry(hash(k), |&e| e == k);
+                if r.is_some() != m.remove(&k) {
+                    ctx.violation("plain:remove_entry:result", format!("{sname} hash {hname}: remove_entry({k}) = {r:?}; ops: {}", log[log.len().saturating_sub(14)..].join(" ")));
+                    return;
+                }
+                "remove_entry"
+            }
+            75..=82 => {
+                // drain, dropped after `take` elements (possibly all, possibly none)
+                let take = rng.usize(t.len() + 2);
+                log.push(format!("drain-take{take}"));
+                let mut got: Vec<u64> = Vec::new();
+                {
+                    let mut d = t.drain();
+                    for _ in 0..take {
+                        match d.next() {
+                            Some(e) => got.push(e),
+                            None => break,
+                        }
+                    }
+                }
+                if got.iter().any(|e| !m.contains(e)) || got.len() > m.len() {
+                    ctx.violation("plain:drain:yielded", format!("{sname} hash {hname}: drain yielded {got:?} from {m:?}"));
+                    return;
+                }
+                m.clear();
+                "drain-partial"
+            }
+            83..=88 => {
+                let md = rng.range(2, 4) as u64;
+                log.push(format!("retain(k%{md}!=0)"));
+                t.retain(|e| *e % md != 0, |_| {});
+                m.retain(|e| *e % md != 0);
+                "retain"
+            }
+            89..=91 => {
+                log.push("clear".into());
+                t.clear();
+                m.clear();
+                "clear"
+            }
+            92..=94 => {
+                log.push("clone".into());
+                t = t.clone();
+                "clone"
+            }
+            95..=97 => {
+                let add = rng.range(0, 40);
+                log.push(format!("reserve({add})"));
+                t.reserve(add);
+                "reserve"
+            }
+            _ => {
+                log.push("into_iter+rebuild".into());
+                let mut all: Vec<u64> = std::mem::replace(&mut t, RawTable::new()).into_iter().collect();
+                all.sort();
+                if all != m.iter().copied().collect::<Vec<_>>() {
+                    ctx.violation("plain:into_iter:elements", format!("{sname} hash {hname}: {all:?} vs {m:?}"));
+                    return;
+                }
+                for k in all {
+                    if let Err(slot) = t.find_or_find_insert_slot(hash(k), |&e| e == k) {
+                        unsafe { t.insert_in_slot_unchecked(hash(k), slot, k) };
+                    }
+                }
+                "into_iter"
+            }
+        };
+        if !check(ctx, &t, &m, &log, what) {
+            return;
+        }
+        ctx.distinct(("plain", hname.to_string(), what, t.slots(), m.len() / 4));
+    }
+    ctx.count("plain_element_sequences", 1);
+}
+
+/// `c17_plain`: `RawTable<u64, _>` (no drop glue) under random operation sequences
+pub fn plain(ctx: &mut Ctx) {
+    let mut rng = ctx.rng(0xC17_91);
+    let seqs = ctx.by_tier(40, 400);
+    let steps = ctx.by_tier(1500, 6000);
+    let hashes: [(fn(u64) -> u64, &str); 5] = [
+        (|k| k, "identity"),
+        (|_| 0, "all-equal"),
+        (|k| k.wrapping_mul(0x9E37_79B9_7F4A_7C15), "multiplicative"),
+        (|k| (k / 3) << 29, "equal-below-bit-29"),
+        (|k| u64::MAX - (k % 5), "wrapping-cluster"),
+    ];
+    for s in 0..seqs {
+        let (h, name) = hashes[(s + ctx.shard) % hashes.len()];
+        if s % 2 == 0 {
+            plain_run::<u32>(ctx, &mut rng, h, name, steps);
+        } else {
+            plain_run::<usize>(ctx, &mut rng, h, name, steps);
+        }
+    }
+    ctx.sample(|| "RawTable<u64, u32|usize> (element type without drop glue): random insert / remove_entry / partially consumed drain / retain / clear / clone / reserve / into_iter under 5 hash functions, BTreeSet model, audit hook + len + iter + find of all keys after every operation".into());
 }
